@@ -716,4 +716,19 @@ example : (match routeNets ⟨3, 3, [], [((0, 0), 0)]⟩ false
     | .ok rs => decide (rs.length = 2) && rs.all (fun r => r.repaired)
     | .error _ => false) = true := by decide +kernel
 
+/-! ## Round 5: how a sink is attached (endpoint constraint before allocated cores) -/
+
+/-- **Sink attachment.**  `route()` attaches a sink that has a RouteEndpointConstraint with exactly the constrained
+route, whatever its allocation says (cores present, an empty slice, no core resource, no entry); otherwise a sink
+whose allocation has the core resource gets exactly one leaf per core of the slice (none for an empty slice);
+otherwise one leaf without a route. -/
+theorem sinkAttach_precedence (s : SinkSpec) :
+    s.resolve.routes =
+      (match s.endpoint, s.cores with
+       | some r, _ => [some r]
+       | none, some (a, b) => (List.range (b - a)).map fun i => some (coreRouteBase + (a + i))
+       | none, none => [none]) ∧
+    s.resolve.v = s.v ∧ s.resolve.chip = s.chip := by
+  rcases s with ⟨v, c, _ | r, _ | ⟨a, b⟩⟩ <;> simp [SinkSpec.resolve, Sink.routes]
+
 end Rig.C03
